@@ -79,6 +79,24 @@ fn run<K: Raw>(req: &str, cont: &str, seq: &[u8], rest: &[&str]) -> String {
 
 /// `<ktype> <req> <container> <seq> [args]`  (C13 and the container part of C12)
 pub fn exec(a: &[&str]) -> String {
+    if a[0] == "extsops" {
+        // every remaining operation of `Exts`: `extsops <e1> <e2> <dir> <base> <seq> <start> <len>`
+        let e1 = Exts::new(u8::from_str_radix(a[1], 16).unwrap());
+        let e2 = Exts::new(u8::from_str_radix(a[2], 16).unwrap());
+        let d = if a[3] == "L" { Dir::Left } else { Dir::Right };
+        let b: u8 = a[4].parse().unwrap();
+        let seq = digits(a[5]);
+        let (st, ln): (usize, usize) = (a[6].parse().unwrap(), a[7].parse().unwrap());
+        let l = |v: Vec<u8>| if v.is_empty() { "-".to_string() } else { v.iter().map(|x| x.to_string()).collect::<Vec<_>>().join("") };
+        let o = |v: Option<u8>| v.map(|x| x.to_string()).unwrap_or("-".into());
+        return format!("add={:02x} set={:02x} merge={:02x} fsd={:02x} getL={} getR={} has={} numL={} numR={} uqL={} uqR={} sdL={:02x} sdR={:02x} mkl={:02x} mkr={:02x} mk={:02x} fsb={:02x} fds={:02x} dbg={:?}",
+            e1.add(e2).val, e1.set(d, b).val, Exts::merge(e1, e2).val, Exts::from_single_dirs(e1, e2).val,
+            l(e1.get(Dir::Left)), l(e1.get(Dir::Right)), e1.has_ext(d, b) as u8, e1.num_exts_l(), e1.num_exts_r(),
+            o(e1.get_unique_extension(Dir::Left)), o(e1.get_unique_extension(Dir::Right)),
+            e1.single_dir(Dir::Left).val, e1.single_dir(Dir::Right).val,
+            Exts::mk_left(b).val, Exts::mk_right(b).val, Exts::mk(b, 3 - b).val,
+            Exts::from_slice_bounds(&seq, st, ln).val, Exts::from_dna_string(&DnaString::from_bytes(&seq), st, ln).val, e1);
+    }
     if a[0] == "exts" {
         let e = Exts::new(u8::from_str_radix(a[1], 16).unwrap());
         return format!("rc={:02x} rcrc={:02x} comp={:02x} rev={:02x}", e.rc().val, e.rc().rc().val, e.complement().val, e.reverse().val);
@@ -142,6 +160,13 @@ pub fn gen(rng: &mut Rng, _tier: &str) -> String {
 pub fn gen12(rng: &mut Rng, _tier: &str) -> String {
     if rng.chance(1, 8) {
         return format!("C12 exts {:02x}", rng.below(256));
+    }
+    if rng.chance(1, 7) {
+        let n = rng.range(1, 12);
+        let seq: Vec<u8> = (0..n).map(|_| rng.below(4) as u8).collect();
+        let st = rng.below(n + 1);
+        let ln = rng.below(n - st + 1);
+        return format!("C12 extsops {:02x} {:02x} {} {} {} {} {}", rng.below(256), rng.below(256), if rng.chance(1, 2) { "L" } else { "R" }, rng.below(4), show_digits(&seq), st, ln);
     }
     let (kt, k) = *rng.pick(&KTYPES);
     let (spec, seq, _) = container(rng, k, false);
